@@ -159,11 +159,45 @@ func registerMoreModels(u *Unit) {
 		func(fx *FX, st *State, c *CallCtx) Val {
 			return VStr{app(SSeq, "pesc", c.Args[0].(VStr).T)}
 		})
-	u.reg("(*net/url.URL).String", "returns urlstring(u): some string, a function of the URL's fields", nil,
+	u.reg("(*net/url.URL).String", "a function of the URL's fields: urlstring4(Scheme, Host, Path, RawQuery) when every other field is zero (the only URLs the library builds), an arbitrary string otherwise; url.Parse of it reads the four fields back (assumed round trip: uscheme/uhost/upath/uquery)", nil,
 		func(fx *FX, st *State, c *CallCtx) Val {
 			up := c.Args[0].(VPtr)
 			fx.nilCheck(st, up.Ref, c.Pos, "URL receiver")
-			return fx.havoc("urlstr", types.Typ[types.String], tTrue)
+			r := fx.havoc("urlstr", types.Typ[types.String], tTrue)
+			stt, ok := up.Elem.Underlying().(*types.Struct)
+			if !ok {
+				return r
+			}
+			ls := layout(up.Elem)
+			ts := fx.loadLeaves(st, up.Ref, up.Off, up.Elem)
+			main := map[string]T{}
+			plain := []T{}
+			for i := 0; i < stt.NumFields(); i++ {
+				off := int(fieldOffset(stt, i))
+				n := len(layout(stt.Field(i).Type()))
+				switch stt.Field(i).Name() {
+				case "Scheme", "Host", "Path", "RawQuery":
+					main[stt.Field(i).Name()] = ts[off]
+				default:
+					for j := off; j < off+n && j < len(ts); j++ {
+						if ls[j].kind == lkOff {
+							continue // the offset of a nil pointer is immaterial
+						}
+						switch ts[j].Sort {
+						case SSeq:
+							plain = append(plain, eq(ts[j], T{"empty", SSeq}))
+						case SBool:
+							plain = append(plain, not(ts[j]))
+						default:
+							plain = append(plain, eq(ts[j], num(0)))
+						}
+					}
+				}
+			}
+			if len(main) == 4 {
+				fx.assume(and(plain...), eq(r.(VStr).T, app(SSeq, "urlstring4", main["Scheme"], main["Host"], main["Path"], main["RawQuery"])))
+			}
+			return r
 		})
 	// ---- syscall/js (js/wasm build): a js.Value is identified by its ref; its JavaScript type, string,
 	// integer and boolean readings are uninterpreted functions of the ref
